@@ -33,7 +33,7 @@ ASSUMPTIONS = [
 TIMEOUT = {"quick": 900, "thorough": 5400}
 PROFILE_A = frozenset(["keys", "builtins", "divmod", "mathfn"])
 PROFILE_B = frozenset(["keys", "builtins", "divmod"])
-LITS_F = gen.FLOATS + [-2.5e-7, 1e16, 123456789.125, 1e-300, -1e300, 0.1]
+LITS_F = gen.FLOATS + [-2.5e-7, 1e16, 123456789.125, 1e-300, -1e300, 0.1, -0.0, 5e-324, -5e-324]
 LITS_I = gen.INTS + [-12, 1000000007, -2 ** 70]
 
 
